@@ -142,7 +142,7 @@ def choose(ctx, rng, direction, env, budget_factor=1):
         for ck in sorted(byclass):
             lst = byclass[ck]
             add(lst[rng.integers(len(lst))])
-        total = (600 if direction == 'inverse' else 400) * budget_factor
+        total = (400 if direction == 'inverse' else 300) * budget_factor
         idx = rng.permutation(len(small))
         for i in idx:
             if len(chosen) >= total:
